@@ -31,6 +31,7 @@ OBSERVATION_INV = "RevocationEffective"
 CHUNK = 8000
 QUICK_SAMPLE = 6000      # cases of the thorough universe replayed in the quick tier (seeded sample)
 SESSIONS = {"quick": (128, 24), "thorough": (512, 48)}     # free-running: (sessions, requests per session)
+BURSTS = {"quick": (32, 40), "thorough": (64, 80)}         # stream storm: (burst sessions, rounds); one round = all at once
 
 _RE_VIOL = re.compile(r"Error: Invariant (\w+) is violated by the initial state:\s*\n(?:/\\ )?l = (\d+)")
 _RE_UNIV = re.compile(r'<<\s*"(universe|auth|scope|resume|seq)",\s*\[(.*?)\]\s*>>', re.S)
@@ -189,6 +190,26 @@ def run_harness(vh, cases_path, out_path, seed, timeout):
         vlib.log("[C09] " + ln)
     if rc != 0:
         raise vlib.Inconclusive("harness failed rc=%d\n%s" % (rc, txt[-3000:]))
+
+
+def make_bursts(rnd, singles, nburst, rounds):
+    """Stream storm: tenants X and Y of shared worlds, genuine certificates, websocket streaming routes only (logs,
+    kubeevents), a few hot coordinates. Round k = request k of EVERY burst session, sent at the same instant."""
+    cases = [o for o in singles if o["kind"] == "case"]
+    seqs = [o for o in singles if o["kind"] == "seq"]
+    hot = [o["path"] for o in cases if o["path"]["route"] in ("logs", "events") and o["path"]["dseq"] in ("own", "other")
+           and o["path"]["gseq"] == "own" and o["path"]["oseq"] == "own" and o["path"]["extra"] in ("none", "spoof")]
+    hot = [json.loads(x) for x in sorted(set(json.dumps(p, sort_keys=True) for p in hot))]
+    out = []
+    n = 0
+    while seqs and hot and len(out) < nburst:
+        n += 1
+        sq = rnd.choice(seqs)
+        ids = {json.dumps(st["cert"], sort_keys=True): st["cert"] for st in sq["steps"]}
+        for cert in ids.values():
+            out.append({"kind": "session", "burst": True, "world": 2000000000 + n, "cert": cert, "reg": sq["reg"],
+                        "paths": [rnd.choice(hot) for _ in range(rounds)]})
+    return out[:nburst]
 
 
 def make_sessions(rnd, singles, nsess, nreq):
@@ -382,6 +403,9 @@ def run(pid, tier, seed, replay):
     rnd.shuffle(singles)                 # the seed also drives which gateway/connection order a case gets
     nsess, nreq = SESSIONS[tier]
     sessions = make_sessions(rnd, singles, nsess, nreq)
+    nburst, rounds = BURSTS[tier]
+    bursts = make_bursts(rnd, singles, nburst, rounds)
+    sessions = sessions + bursts
     cov["replayed"] = {"MC_quick.cfg": len(quick_set), "MC_thorough.cfg": len(rest),
                        "of_thorough_universe": len(exported["MC_thorough.cfg"]),
                        "free_running_sessions": nsess, "requests_per_session": nreq}
@@ -442,6 +466,8 @@ def run(pid, tier, seed, replay):
         sequence_steps=sum(1 for o in cases if o.get("seq")),
         resumption_cases=len(resumes),
         resumed_connections=sum(1 for o in resumes if o.get("resumed")),
+        stream_storm={"burst_sessions": len(bursts), "rounds": rounds, "streams": sum(1 for o in cases if o.get("session", 0) >= 100000),
+                      "served": sum(1 for o in cases if o.get("session", 0) >= 100000 and o["served"])},
         free_running={"sessions": nsess, "paired_sessions_sharing_a_world": sum(1 for x in sessions if x.get("world")), "requests": len(sess_lines), "served": sum(1 for o in sess_lines if o["served"]),
                       "orphan_backend_calls": norphans},
         strict_reading_observations=len(obs),
